@@ -29,6 +29,7 @@ type assignmentBuilder struct {
 	rhsVar            gmodel.Var       // The variable on the right-hand side of the assignment.
 	additionalArgVars []gmodel.Var     // The additional arguments to use in the assignment.
 	funcName          string           // The name of the method being generated.
+	retError          bool             // Whether the generated function has an error result.
 	copiers           []*bmodel.Copier // The list of copiers used in the generated code.
 }
 
@@ -50,6 +51,7 @@ func newAssignmentBuilder(
 		rhsVar:            rhsVar,
 		additionalArgVars: additionalArgs,
 		funcName:          m.Name(),
+		retError:          m.RetError(),
 	}
 }
 
@@ -253,6 +255,10 @@ func (b *assignmentBuilder) createWithConverter(lhs, rhs bmodel.Node, converter 
 	lhsExpr := lhs.AssignExpr()
 	posStr := b.fset.Position(converter.Pos())
 
+	if converterNode != nil && converter.RetError() && !b.retError {
+		// The converter can fail but the generated function has no error result to carry it.
+		converterNode = nil
+	}
 	if converterNode != nil {
 		rhsExpr := converterNode.AssignExpr()
 		logger.Printf("%v: assignment found: %v = %v, err", posStr, lhsExpr, rhsExpr)
@@ -287,6 +293,10 @@ func (b *assignmentBuilder) createWithMapper(lhs, rhs bmodel.Node, mapper *optio
 	lhsExpr := lhs.AssignExpr()
 	posStr := b.fset.Position(mapper.Pos())
 
+	if mappedNode != nil && mappedNode.ReturnsError() && !b.retError {
+		// The getter can fail but the generated function has no error result to carry it.
+		mappedNode = nil
+	}
 	if mappedNode != nil {
 		rhsExpr := mappedNode.AssignExpr()
 		logger.Printf("%v: assignment found: %v = %v", posStr, lhs, rhs)
@@ -323,6 +333,9 @@ func (b *assignmentBuilder) createWithTemplatedMapper(
 	lhsExpr := lhs.AssignExpr()
 	posStr := b.fset.Position(mapper.Pos())
 
+	if mappedNode != nil && mappedNode.ReturnsError() && !b.retError {
+		mappedNode = nil
+	}
 	if mappedNode != nil {
 		rhsExpr := mappedNode.AssignExpr()
 		logger.Printf("%v: assignment found: %v = %s", posStr, lhs, rhsExpr)
